@@ -4,6 +4,7 @@ package main
 
 import (
 	"fmt"
+	"sort"
 	"go/ast"
 	"go/constant"
 	"go/token"
@@ -244,7 +245,7 @@ func (e *SpecEnv) ident(name string) T {
 	}
 	if gd, ok := e.g.cs.Ghosts[e.pkgPath()+"::"+name]; ok {
 		t := e.resolveType(gd.Type)
-		return e.g.load(e.cur, e.g.globalLoc("ghost:"+e.pkgPath()+"."+name, t))
+		return e.g.load(e.cur, e.g.ghostLoc(e.pkgPath(), name, t))
 	}
 	specFail("unknown identifier %s", name)
 	return T{}
@@ -260,6 +261,13 @@ func (e *SpecEnv) pkgPath() string {
 func (e *SpecEnv) importedPkg(name string) *types.Package {
 	if e.pkg == nil {
 		return nil
+	}
+	if path, ok := importAliases[e.pkg.Path()][name]; ok {
+		for _, p := range e.pkg.Imports() {
+			if p.Path() == path {
+				return p
+			}
+		}
 	}
 	for _, p := range e.pkg.Imports() {
 		if p.Name() == name {
@@ -285,7 +293,7 @@ func (e *SpecEnv) pkgObject(p *types.Package, name string) T {
 			ge := *e
 			ge.pkg = p
 			t := ge.resolveType(gd.Type)
-			return e.g.load(e.cur, e.g.globalLoc("ghost:"+p.Path()+"."+name, t))
+			return e.g.load(e.cur, e.g.ghostLoc(p.Path(), name, t))
 		}
 		specFail("unknown object %s.%s", p.Name(), name)
 	}
@@ -556,6 +564,10 @@ func (e *SpecEnv) index(base, idx T) T {
 	case *types.Slice:
 		return g.sliceElem(e.cur, base, idx.S)
 	case *types.Map:
+		if strings.HasPrefix(base.Sort, "(Array") {
+			// ghost map: a mathematical total map (value array)
+			return mk(sel(base.S, idx.S), g.sortOf(u.Elem()), u.Elem())
+		}
 		v, has := g.mapLookup(e.cur, base, idx.S)
 		return mk(sIte(has, v.S, g.zero(u.Elem()).S), v.Sort, v.GT)
 	case *types.Array:
@@ -659,24 +671,65 @@ func (e *SpecEnv) isTypeExpr(x ast.Expr) (t types.Type, ok bool) {
 
 func (e *SpecEnv) quant(kind string, x *ast.CallExpr) T {
 	if len(x.Args) == 2 || len(x.Args) == 3 {
-		// forall(k, body) / forall(k, Type, body): unbounded quantification
-		id, ok := x.Args[0].(*ast.Ident)
-		if !ok {
-			specFail("%s: first argument must be an identifier", kind)
+		// forall(k, body) / forall(k, Type, body): unbounded quantification. Directly nested
+		// quantifiers of the same kind are merged into one binder with a multi-pattern.
+		inner := e
+		var vars, sorts []string
+		cur := x
+		var bodyExpr ast.Expr
+		for {
+			id, ok := cur.Args[0].(*ast.Ident)
+			if !ok {
+				specFail("%s: first argument must be an identifier", kind)
+			}
+			var t types.Type = types.Typ[types.Int]
+			if len(cur.Args) == 3 {
+				t = inner.resolveType(cur.Args[1])
+			}
+			sort := e.g.sortOf(t)
+			bvq := quote(fmt.Sprintf("%s!q%d", id.Name, e.g.nextQ()))
+			bound := append(append([]string{}, inner.bound...), bvq)
+			inner = inner.with(id.Name, mk(bvq, sort, t))
+			inner.bound = bound
+			vars = append(vars, bvq)
+			sorts = append(sorts, sort)
+			bodyExpr = cur.Args[len(cur.Args)-1]
+			if c, ok := bodyExpr.(*ast.CallExpr); ok {
+				if cid, ok := c.Fun.(*ast.Ident); ok && cid.Name == kind && (len(c.Args) == 2 || len(c.Args) == 3) {
+					cur = c
+					continue
+				}
+			}
+			break
 		}
-		var t types.Type = types.Typ[types.Int]
-		if len(x.Args) == 3 {
-			t = e.resolveType(x.Args[1])
+		body := inner.eval(bodyExpr)
+		var binders []string
+		for i := range vars {
+			binders = append(binders, "("+vars[i]+" "+sorts[i]+")")
 		}
-		sort := e.g.sortOf(t)
-		bvq := quote(fmt.Sprintf("%s!q%d", id.Name, e.g.nextQ()))
-		inner := e.with(id.Name, mk(bvq, sort, t))
-		inner.bound = append(append([]string{}, e.bound...), bvq)
-		body := inner.eval(x.Args[len(x.Args)-1])
-		if kind == "forall" {
-			return boolT(sForallS(bvq, sort, body.S))
+		q := "forall"
+		if kind != "forall" {
+			q = "exists"
 		}
-		return boolT("(exists ((" + bvq + " " + sort + ")) " + body.S + ")")
+		pat := ""
+		if kind == "forall" && len(vars) > 1 {
+			var ps []string
+			for _, v := range vars {
+				bp := barePatterns(body.S, v)
+				if len(bp) == 0 {
+					ps = nil
+					break
+				}
+				ps = append(ps, bp[0])
+			}
+			if len(ps) == len(vars) {
+				pat = " :pattern (" + strings.Join(ps, " ") + ")"
+			}
+		}
+		if pat != "" {
+			return boolT("(" + q + " (" + strings.Join(binders, " ") + ") (! " + body.S + pat + "))")
+		}
+		return boolT("(" + q + " (" + strings.Join(binders, " ") + ") " + body.S + ")")
 	}
 	if len(x.Args) != 4 {
 		specFail("%s(var, lo, hi, body)", kind)
@@ -723,7 +776,16 @@ func (e *SpecEnv) call(x *ast.CallExpr) T {
 				case *types.Slice:
 					return intT(slLen(v.S))
 				case *types.Map:
-					return intT(g.mapCard(e.cur, v.S))
+					ground := true
+					for _, bv := range e.bound {
+						if strings.Contains(v.S, bv) {
+							ground = false
+						}
+					}
+					if ground {
+						g.cardFacts(e.cur, v, "true")
+					}
+					return intT(g.mapCard(e.cur, v))
 				case *types.Array:
 					return intT(fmt.Sprint(v.GT.Underlying().(*types.Array).Len()))
 				}
@@ -742,7 +804,7 @@ func (e *SpecEnv) call(x *ast.CallExpr) T {
 				_, h := g.mapLookup(e.cur, m, k.S)
 				return boolT(h)
 			case "card":
-				return intT(g.mapCard(e.cur, e.eval(x.Args[0]).S))
+				return intT(g.mapCard(e.cur, e.eval(x.Args[0])))
 			case "sameseq":
 				a, b := e.eval(x.Args[0]), e.eval(x.Args[1])
 				j := quote(fmt.Sprintf("j!q%d", g.nextQ()))
@@ -775,6 +837,20 @@ func (e *SpecEnv) call(x *ast.CallExpr) T {
 					specFail("iter(): the loop has no range index")
 				}
 				return v
+			case "keyseq", "nvisited":
+				if e.mapIter == nil {
+					specFail("%s() outside a range-over-map loop invariant", id.Name)
+				}
+				mr := e.mapIter()
+				if mr == nil {
+					specFail("%s(): no map iteration found for this loop", id.Name)
+				}
+				mt := mr.m.GT.Underlying().(*types.Map)
+				if id.Name == "nvisited" {
+					return intT(sel(g.arr(e.cur, "IterCnt", "Int"), mr.it))
+				}
+				ksSort := fmt.Sprintf("(Array Int %s)", g.sortOf(mt.Key()))
+				return mk(mr.ord, ksSort, types.NewMap(types.Typ[types.Int], mt.Key()))
 			case "isint":
 				v := e.eval(x.Args[0])
 				if v.Sort != "Real" {
@@ -964,7 +1040,7 @@ func (e *SpecEnv) applyPredT(p *Pred, as []T) T {
 			}
 		}
 	}
-	penv := &SpecEnv{g: g, pkg: declPkg, cur: e.cur, old: e.old, vars: map[string]T{}, depth: e.depth + 1, fr: e.fr, iter: nil, bound: e.bound, axDepth: e.axDepth}
+	penv := &SpecEnv{g: g, pkg: declPkg, cur: e.cur, old: e.old, vars: map[string]T{}, depth: e.depth + 1, fr: e.fr, iter: nil, bound: e.bound, axDepth: e.axDepth, mapIter: e.mapIter}
 	if e.depth > 20 {
 		specFail("predicate nesting too deep at %s", p.Name)
 	}
@@ -987,6 +1063,10 @@ func (e *SpecEnv) applyPredT(p *Pred, as []T) T {
 		rt = penv.resolveType(p.Result)
 		rs = g.sortOf(rt)
 	}
+	if g.inSpecReads[p] {
+		// dry evaluation (collecting heap reads): nested applications are placeholders
+		return mk(g.freshConst("specph", rs), rs, rt)
+	}
 	var sorts []Sort
 	var strs []string
 	for _, a := range as {
@@ -1000,11 +1080,23 @@ func (e *SpecEnv) applyPredT(p *Pred, as []T) T {
 				sorts = append(sorts, es)
 				strs = append(strs, sel(g.arr(e.cur, arr, es), slBase(a.S)))
 			case *types.Map:
+				if strings.HasPrefix(a.Sort, "(Array") {
+					break // ghost map: passed by value
+				}
 				va, ha, ks, vs := g.mapArrs(u)
 				vsort, hsort := fmt.Sprintf("(Array %s %s)", ks, vs), fmt.Sprintf("(Array %s Bool)", ks)
 				sorts = append(sorts, vsort, hsort)
 				strs = append(strs, sel(g.arr(e.cur, va, vsort), a.S), sel(g.arr(e.cur, ha, hsort), a.S))
 			}
+		}
+	}
+	// other heap arrays the axioms read (fields, cells, globals) are implicit arguments too, so
+	// that the function is a function of everything its definition depends on
+	if len(p.Axioms) > 0 {
+		for _, name := range g.specReads(p, penv) {
+			es := g.arrReg[name]
+			sorts = append(sorts, "(Array Int "+es+")")
+			strs = append(strs, g.arr(e.cur, name, es))
 		}
 	}
 	name := quote("spec:" + p.Name)
@@ -1042,6 +1134,57 @@ func (e *SpecEnv) applyPredT(p *Pred, as []T) T {
 		g.assert(v.S)
 	}
 	return res
+}
+
+// specReads determines (once per spec function) which field/cell/global heap arrays the axioms
+// of p read: a dry evaluation with a placeholder result.
+func (g *Gen) specReads(p *Pred, penv *SpecEnv) []string {
+	if r, ok := g.specReadCache[p]; ok {
+		return r
+	}
+	g.inSpecReads[p] = true
+	defer delete(g.inSpecReads, p)
+	snap := g.snapshot()
+	saved := g.readLog
+	g.readLog = map[string]bool{}
+	func() {
+		defer func() {
+			if r := recover(); r != nil {
+				if _, ok := r.(specError); !ok {
+					panic(r)
+				}
+			}
+		}()
+		var rs Sort = "Bool"
+		var rt types.Type = types.Typ[types.Bool]
+		if p.Result != nil {
+			rt = penv.resolveType(p.Result)
+			rs = g.sortOf(rt)
+		}
+		ph := mk(g.freshConst("specph", rs), rs, rt)
+		aenv := *penv
+		aenv.axDepth = 5 // no nested instantiation
+		aenv.vars = map[string]T{}
+		for k, v := range penv.vars {
+			aenv.vars[k] = v
+		}
+		aenv.vars["result"] = ph
+		aenv.result = []T{ph}
+		for _, ax := range p.Axioms {
+			aenv.eval(ax.Expr)
+		}
+	}()
+	var out []string
+	for n := range g.readLog {
+		if strings.HasPrefix(n, "F:") || strings.HasPrefix(n, "Cell:") || strings.HasPrefix(n, "G:") {
+			out = append(out, n)
+		}
+	}
+	sort.Strings(out)
+	g.readLog = saved
+	g.restore(snap)
+	g.specReadCache[p] = out
+	return out
 }
 
 // callGoFunc: a Go function or method used inside a specification. It must be declared pure
